@@ -1,13 +1,19 @@
 (* Correspondence vocabulary for C06: one constructor per sg1 entry point, carrying the
-   inputs the harness used and the output the Rust function produced. *)
-From LP Require Import Num Pay Sg1.
+   inputs the harness used and the output the Rust function produced; and one for the
+   CALL SITES in the contracts, carrying the inputs of the site and what the chain looked
+   like before and after the real contract ran (bank balances of the tracked slots, the
+   burned amount as the balance of A_BURNED, the sender decoded from the
+   MsgFundFairburnPool the stargate keeper saw). *)
+From LP Require Import Num Pay Sg1 Bank FeeSites.
 
 Inductive c06_case :=
 | CFairBurn (sender fee : N) (dev : option N) (out : result (list bmsg))
 | CChecked (contract : N) (funds : list coin) (fee : N) (dev : option N) (out : result (list bmsg))
 | CIbc (d fee : N) (dev : option N) (out : result (list bmsg))
 | CMintFees (d fee : N) (featured : bool) (dev : option N) (out : result (list bmsg))
-| CDao (funds : list coin) (fee d : N) (out : result (list bmsg)).
+| CDao (funds : list coin) (fee d : N) (out : result (list bmsg))
+| CSite (s : site) (self payer : N) (funds : list coin) (bal0 : bal)
+        (ok : bool) (bal1 : bal) (pool_sender : option N).
 
 Definition out_eqb := result_eqb (list_eqb bmsg_eqb).
 
@@ -18,4 +24,17 @@ Definition c06_check (c : c06_case) : bool :=
   | CIbc d f dv o => out_eqb (ibc_denom_fair_burn d f dv) o
   | CMintFees d f ft dv o => out_eqb (distribute_mint_fees d f ft dv) o
   | CDao fs f d o => out_eqb (transfer_funds_to_launchpad_dao fs f d) o
+  | CSite s self payer fs b0 ok b1 ps =>
+      (* the model's fee messages, applied by the model bank to the observed balances
+         before the call, must give the observed balances after it on every tracked
+         slot; a rejection must leave every tracked slot as it was; the pool message
+         must name the sender the model names *)
+      match site_msgs s self fs with
+      | Err => negb ok && bal_agrees b0 b1 && option_eqb N.eqb ps None
+      | Ok ms =>
+          match site_world s self payer fs b0 with
+          | Err => negb ok && bal_agrees b0 b1
+          | Ok b => ok && bal_agrees b b1 && option_eqb N.eqb ps (fund_sender ms)
+          end
+      end
   end.
